@@ -671,6 +671,11 @@ def single_variants():
     V.append(([("env", [("C16_A", "1")])], {"env": {"C16_A": "orig"}}, {"C16_A": "later"}))
     V.append(([("env", [("C16_A", "1")])], {"env": {"C16_A": "orig"}}, {"C16_A": None}))
     V.append(([("env", [("C16_A", "1")])], {}, {"C16_A": "later"}))
+    for val in ("", "0", " "):      # set-but-empty (export X=) and other falsy-looking values are states of their own
+        V.append(([("env", [("C16_A", "1")])], {"env": {"C16_A": val}}, {}))
+    V.append(([("env", [("C16_A", "1"), ("C16_B", "x")])], {"env": {"C16_A": "", "C16_B": "0"}}, {}))
+    V.append(([("env", [("C16_A", "")])], {"env": {"C16_A": "7"}}, {}))
+    V.append(([("env", [("C16_A", "1")])], {"env": {"C16_A": "orig"}}, {"C16_A": ""}))
     V.append(([("cfg",)], {}, {}))
     V.append(([("mem",)], {}, {}))
     return V
@@ -678,7 +683,7 @@ def single_variants():
 
 def random_stack(rng, full):
     pool = [("work_in", "d1"), ("work_in", "d2"), ("tmp", [], [".out"], False), ("tmp", [], [".out", ".xyz"], True),
-            ("env", [("C16_A", "1")]), ("env", [("C16_A", "2"), ("C16_B", "3")]), ("cfg",), ("mem",)]
+            ("env", [("C16_A", "1")]), ("env", [("C16_A", "2"), ("C16_B", "3")]), ("env", [("C16_A", "")]), ("cfg",), ("mem",)]
     depth = rng.choice([2, 3])
     if rng.random() < 0.3:
         return [("rec", rng.choice(pool), depth)]
@@ -706,6 +711,9 @@ def plans_for(k, full, rng):
 # ------------------------------------------------------------------------------------ execute closures
 PROGS = [("XTB", "job.xyz"), ("ORCA", "job.inp"), ("G09", "job.com"), ("NWChem", "job.nw"),
          ("MOPAC", "job.mop"), ("QChem", "job.in")]
+KWS_QUICK = ("sp", "grad", "opt", "hess")
+KWS_FULL = ("sp", "grad", "opt", "hess", "low_opt", "opt_ts", "low_sp")
+EMPTY_ENV = {"OMP_NUM_THREADS": "", "GFORTRAN_UNBUFFERED_ALL": ""}
 OUTNAME = {"XTB": "job.out", "ORCA": "job.out", "G09": "job.log", "NWChem": "job.out", "MOPAC": "job.out", "QChem": "job.out"}
 
 
@@ -722,7 +730,8 @@ def run_program_case(sb, methods, case):
     m = methods[case["prog"]]
     m.path = exe
     calc = types.SimpleNamespace(
-        input=types.SimpleNamespace(filenames=list(case["fns"]), filename=case["inp"], additional_filenames=[], keywords=[]),
+        input=types.SimpleNamespace(filenames=list(case["fns"]), filename=case["inp"], additional_filenames=[],
+                                    keywords=copy.deepcopy(getattr(m.keywords, case.get("kw", "sp")))),   # Calculation copies them too
         output=types.SimpleNamespace(filename=OUTNAME[case["prog"]]), n_cores=3, method=types.SimpleNamespace(path=exe), name="job",
         molecule=types.SimpleNamespace(charge=0, mult=1, solvent=None))
     before = sb.snapshot()
@@ -756,6 +765,19 @@ def program_term(sb, case, res, base_tree):
     return f"check_case {run} {res['out']} {cwd} {env} {dirs} {files} {cfg}"
 
 
+def cfg_diff_text(b, a):
+    parts = []
+    for k in sorted(set(a) | set(b)):
+        if a.get(k) == b.get(k):
+            continue
+        if k in a and k in b and a[k][0] == "node" and b[k][0] == "node":
+            da, db = dict(a[k][1]), dict(b[k][1])
+            parts.append(f"Config.{k}: attributes {[x for x in sorted(set(da) | set(db)) if da.get(x) != db.get(x)]} changed (deep comparison)")
+        else:
+            parts.append(f"Config.{k} changed")
+    return "; ".join(parts[:4])
+
+
 def program_failures(sb, case, res):
     out = []
     b, a = res["before"], res["after"]
@@ -767,7 +789,7 @@ def program_failures(sb, case, res):
             out.append((f"{pn}.execute|env-not-restored", f"variable {k}: {b['env'].get(k)!r} before, {a['env'].get(k)!r} after execute ({res['txt']})"))
             break
     if a["cfg"] != b["cfg"]:
-        out.append((f"{pn}.execute|config-not-restored", "Config changed across execute"))
+        out.append((f"{pn}.execute|config-not-restored", f"Config differs after execute ({res['txt']}): " + cfg_diff_text(b["cfg"], a["cfg"])))
     for top in ("tmp", "ll"):
         if tree_under(a, top) != tree_under(b, top):
             out.append((f"{pn}.execute|scratch-dir-left", f"entries left under {top}/ ({res['txt']})"))
@@ -908,11 +930,21 @@ def run(ctx):
         # 3b. nested stacks (depth 2-3, incl. recursion of one decorated function)
         nst = 50 if ctx.quick else 400
         sub = [S[i] for i in (0, 1, 2, 3, 4, 6, 8, 10, 14, 16, 17, 20, 21) if i < len(S)]
+        fixed = []      # depth 3 on ONE variable, every kind of prior value, return and raise (also as recursion)
+        for val in (None, "7", "0", "", " "):
+            for stack in ([("env", [("C16_A", "1")]), ("env", [("C16_A", "")]), ("env", [("C16_A", "3")])],
+                          [("rec", ("env", [("C16_A", "1"), ("C16_B", "")]), 3)]):
+                fixed.append((stack, {"env": ({} if val is None else {"C16_A": val, "C16_B": val})},
+                              [[], [("raise", 4)], [("delenv", "C16_A"), ("setenv", "C16_B", "callee"), ("raise", 0)]]))
+        rnd = []
         for _ in range(nst):
             stack = random_stack(ctx.rng, full)
-            pre = {"env": ctx.rng.choice([{}, {"C16_A": "orig"}, {"C16_A": "orig", "C16_B": "origB"}]),
+            pre = {"env": ctx.rng.choice([{}, {"C16_A": "orig"}, {"C16_A": "orig", "C16_B": "origB"}, {"C16_A": ""},
+                                          {"C16_A": "0", "C16_B": ""}, {"C16_A": " "}]),
                    "ll": ctx.rng.choice([None, "exists"]), "workdir": ctx.rng.choice([None, "empty", "full"])}
-            for acts in ctx.rng.sample(sub, 3 if ctx.quick else 5):
+            rnd.append((stack, pre, ctx.rng.sample(sub, 3 if ctx.quick else 5)))
+        for stack, pre, actss in fixed + rnd:
+            for acts in actss:
                 case0 = {"stack": stack, "pre": pre, "acts": acts, "plan": [], "late_env": {}}
                 res0 = run_case(sb, case0)
                 todo = [(case0, res0)]
@@ -935,15 +967,44 @@ def run(ctx):
         sb.reset({})
         for pn, _ in PROGS:
             methods[pn] = make_method(pn)
+        kws = KWS_FULL if full else KWS_QUICK
+        kwi = 0
         for pn, inp in PROGS:
             # a machine without enough memory: the external program must never be started
-            c = {"prog": pn, "inp": inp, "fns": [inp], "exe": "ok", "plan": [], "lowmem": True,
-                 "pre": {"inputs": [inp] + (["job_mol.in"] if pn == "MOPAC" else [])}}
-            r = run_program_case(sb, methods, c)
-            ctx.count("execute-closures-lowmem", pn, True, sample={"program": pn, "outcome": r["txt"], "external_started": r["ran"]})
-            nfail += report(ctx, program_failures(sb, c, r), {"kind": "program", "case": c, "observed": r["txt"]}, seen)
+            inputs = [inp] + (["job_mol.in"] if pn == "MOPAC" else [])
+            for ki, kw in enumerate(kws):
+                env = EMPTY_ENV if ki % 2 else {}
+                c = {"prog": pn, "inp": inp, "fns": [inp], "exe": "ok", "plan": [], "lowmem": True, "kw": kw,
+                     "pre": {"inputs": inputs, "env": env}}
+                r = run_program_case(sb, methods, c)
+                ctx.count("execute-closures-lowmem", (pn, kw), True, sample={"program": pn, "keywords": kw, "outcome": r["txt"], "external_started": r["ran"]})
+                nfail += report(ctx, program_failures(sb, c, r), {"kind": "program", "case": c, "observed": r["txt"]}, seen)
+                # every calculation type: the program runs / is missing / the memory check fails (tape)
+                for exe in ("ok", "missing"):
+                    if pn == "NWChem" and exe == "missing":
+                        continue
+                    c0 = {"prog": pn, "inp": inp, "fns": [inp], "exe": exe, "plan": [], "kw": kw,
+                          "pre": {"inputs": inputs, "env": {} if ki % 2 else EMPTY_ENV}}
+                    r0 = run_program_case(sb, methods, c0)
+                    todo = [(c0, r0)]
+                    mem_at = [i for i, (kind, _, _) in enumerate(r0["log"]) if kind == "mem"]
+                    if mem_at and exe == "ok":
+                        c1 = dict(c0, plan=[j == mem_at[0] for j in range(mem_at[0] + 1)])
+                        todo.append((c1, run_program_case(sb, methods, c1)))
+                    for c, r in todo:
+                        ctx.count("execute-closures-kwtypes", (pn, kw, exe, repr(c["plan"])), True,
+                                  sample={"program": pn, "keywords": kw, "exe": exe, "plan": c["plan"], "outcome": r["txt"]})
+                        ctx.hist("execute-closures-kwtypes", f"{pn}|{kw}")
+                        nfail += report(ctx, program_failures(sb, c, r), {"kind": "program", "case": c, "observed": r["txt"]}, seen)
+                        if r["out"] is not None:
+                            terms.append(program_term(sb, c, r, base_tree))
+                            descr.append({"stream": "execute-closures-kwtypes", "case": c, "observed": r["txt"]})
             fsets = [[inp]] + ([[inp, "job_mol.in"]] if pn == "MOPAC" else []) + [[inp, "missing.inp"]]
             envs = [{}, {"OMP_NUM_THREADS": "8", "GFORTRAN_UNBUFFERED_ALL": "0"}]
+            if pn in ("XTB", "MOPAC"):
+                envs.append(EMPTY_ENV)                      # set-but-empty is a state of its own
+                if full:
+                    envs.append({"OMP_NUM_THREADS": " ", "GFORTRAN_UNBUFFERED_ALL": ""})
             lls = [None, "exists"] if pn in ("XTB", "MOPAC") else [None]
             if pn in ("XTB", "MOPAC") and full:
                 lls.append("missing")
@@ -952,8 +1013,11 @@ def run(ctx):
                     continue
                 if pn == "NWChem" and exe == "missing":
                     continue      # started through mpirun: a missing binary is mpirun's business, not a Python exception
-                case0 = {"prog": pn, "inp": inp, "fns": fns, "exe": exe, "plan": [],
-                         "pre": {"env": env, "ll": ll, "inputs": [inp] + (["job_mol.in"] if pn == "MOPAC" else [])}}
+                if not full and env is EMPTY_ENV and (len(fns) > 1 or ll):
+                    continue
+                kwi += 1
+                case0 = {"prog": pn, "inp": inp, "fns": fns, "exe": exe, "plan": [], "kw": kws[kwi % len(kws)],
+                         "pre": {"env": env, "ll": ll, "inputs": inputs}}
                 res0 = run_program_case(sb, methods, case0)
                 todo = [(case0, res0)]
                 for plan in plans_for(res0["steps"], False, ctx.rng):
